@@ -532,7 +532,11 @@ impl<'a> Parser<'a> {
             .map(|tok| (tok.spelling, tok.range))
         {
             let (next_word, next_range) = self
-                .match_and_consume(|tok: &Token| is_word(tok.spelling))
+                .match_and_consume(|tok: &Token| {
+                    // same rule the lexer applies to a word on its own: letters and apostrophes
+                    is_word(tok.spelling)
+                        && tok.spelling.chars().all(|c| c.is_alphabetic() || c == '\'')
+                })
                 .map(|tok| (tok.spelling, tok.range))
                 .ok_or_else(|| {
                     self.new_parse_error(ParseErrorCode::MissingIDAfterCommonPrefix(prefix.into()))
